@@ -188,7 +188,12 @@ class SgzCropper(SgzReader):
                                                                          n_blocks[2] * self.block_bytes))
 
             self.read_variant_headers()
+            written_offsets = set()
             for k in self.stored_header_keys:
+                # Header words which duplicate another one share its array, which is stored once
+                if self.segy_traceheader_template[k] in written_offsets:
+                    continue
+                written_offsets.add(self.segy_traceheader_template[k])
                 header_array = self.variant_headers[k].reshape((self.n_ilines, self.n_xlines)).astype(np.int32)
                 cropped_header_array = header_array[iline_index_range[0]:iline_index_range[1],
                                                     xline_index_range[0]:xline_index_range[1]]
